@@ -144,6 +144,28 @@ def dir_stream(ctx, n):
         got = sorted(str(s_["name"]) for s_ in im["junit"])
         if got != want:
             ctx.violation("E4", f"dir mode: the report's suites {got[:6]} are not one per accounted file {want[:6]}", {"dir": sc})
+        else:
+            # skipped entries are exactly the ignored / filtered ones: a file missing on one side is a skipped entry iff the
+            # matching --ignore-missing-*-files flag was given, and a failure (without any skipped entry) otherwise; filtered and
+            # unsupported files are skipped entries
+            cls = c12.oracle(sc, im)["classes"]
+            o = sc["opts"]
+            for s_ in im["junit"]:
+                kind = cls[str(s_["name"])]
+                tags = [t for _, tg, _ in s_["cases"] for t in tg]
+                n_skip = sum(1 for t in tags if "skipped" in t)
+                n_fail = sum(1 for t in tags if "failure" in t or "error" in t)
+                if kind in ("missing_src", "missing_ref"):
+                    ignored = o["ign_src"] if kind == "missing_src" else o["ign_ref"]
+                    ok = (n_skip >= 1 and n_fail == 0) if ignored else (n_skip == 0 and n_fail >= 1)
+                elif kind in ("filtered", "unsupported"):
+                    ok = n_skip >= 1 and n_fail == 0
+                else:
+                    ok = True
+                if not ok:
+                    ctx.violation("E4", f"dir mode: the suite of {s_['name']} ({kind}) holds {n_skip} skipped and {n_fail} failed entries: "
+                                        "skipped entries must be exactly the ignored / filtered ones", {"dir": sc}, junit=[s_])
+                    break
         ctx.traces_validated += 1
 
 
